@@ -236,6 +236,11 @@ pub struct Script {
 
 /// Build a self-contained SMT-LIB2 script asserting all of `asserts` (sliced by the caller).
 pub fn build_script(asserts: &[F], timeout_ms: u64, want_model: bool) -> Script {
+    build_script_pinned(asserts, timeout_ms, want_model, None)
+}
+/// `pinned`: give every variable a fixed value (`define-fun` instead of `declare-const`), so that the
+/// solver only has to evaluate a ground system.
+pub fn build_script_pinned(asserts: &[F], timeout_ms: u64, want_model: bool, pinned: Option<&HashMap<u32, fq::U256>>) -> Script {
     // lemmas first (they may create nodes)
     let mut lemmas = vec![];
     let mut seen = HashSet::new();
@@ -266,8 +271,16 @@ pub fn build_script(asserts: &[F], timeout_ms: u64, want_model: bool) -> Script 
                 VarKind::Scalar => fq::Q_DEC,
                 VarKind::Blob => fq::TWO256_DEC,
             };
-            t.push_str(&format!("(declare-const {0} Int)\n(assert (and (<= 0 {0}) (< {0} {1})))\n", vi.name, ub));
-            names.push(vi.name.clone());
+            match pinned {
+                Some(p) => {
+                    let val = p.get(v).copied().unwrap_or(vi.shadow);
+                    t.push_str(&format!("(define-fun {0} () Int {1})\n(assert (and (<= 0 {0}) (< {0} {2})))\n", vi.name, fq::to_dec(&val), ub));
+                }
+                None => {
+                    t.push_str(&format!("(declare-const {0} Int)\n(assert (and (<= 0 {0}) (< {0} {1})))\n", vi.name, ub));
+                    names.push(vi.name.clone());
+                }
+            }
         }
         for tid in &terms {
             let d = match &a.nodes[*tid as usize] {
@@ -360,7 +373,10 @@ impl Solvers {
         Solvers { main, second, third, save_dir, counter: 0 }
     }
     pub fn check(&mut self, name: &str, asserts: &[F], timeout_ms: u64, want_model: bool) -> QueryStat {
-        let sc = build_script(asserts, timeout_ms, want_model);
+        self.check_pinned(name, asserts, timeout_ms, want_model, None)
+    }
+    pub fn check_pinned(&mut self, name: &str, asserts: &[F], timeout_ms: u64, want_model: bool, pinned: Option<&HashMap<u32, fq::U256>>) -> QueryStat {
+        let sc = build_script_pinned(asserts, timeout_ms, want_model, pinned);
         let mut text = sc.text.clone();
         if want_model && !sc.vars.is_empty() {
             // only asked after sat; z3 errors on get-value after unsat, handled below by ordering
